@@ -34,6 +34,8 @@ pub enum WriteFaultKind {
     ZeroAccept,
     /// `flush` returns `ErrorKind::Other` once.
     FlushErr,
+    /// `write` panics once (a user-supplied sink may; the caller catches the unwind and carries on).
+    Panic,
     /// every `write` once `n` bytes have been accepted fails with `StorageFull`-like `Other` (sticky).
     DiskFull,
 }
@@ -188,6 +190,10 @@ impl Write for SimSink {
                 if self.faults_fired.len() < 8 {
                     self.faults_fired.push(kind);
                 }
+                if kind == WriteFaultKind::Panic {
+                    self.log(SinkCall { kind: CallKind::Write, offered: buf.len(), accepted: 0, err: Some(ErrorKind::Other) });
+                    panic!("sim: the sink panicked");
+                }
                 let (res, ek) = match kind {
                     WriteFaultKind::Other => (Err(io::Error::other("sim: injected write error")), Some(ErrorKind::Other)),
                     WriteFaultKind::Interrupted => (
@@ -200,7 +206,7 @@ impl Write for SimSink {
                     ),
                     WriteFaultKind::DiskFull => (Err(io::Error::other("sim: disk full")), Some(ErrorKind::Other)),
                     WriteFaultKind::ZeroAccept => (Ok(0), None),
-                    WriteFaultKind::FlushErr => unreachable!(),
+                    WriteFaultKind::FlushErr | WriteFaultKind::Panic => unreachable!(),
                 };
                 if kind == WriteFaultKind::ZeroAccept && !buf.is_empty() {
                     self.owed = Some(buf.to_vec());
@@ -254,6 +260,10 @@ pub enum ReadFaultKind {
     Interrupted,
     /// End of data at the offset (truncation).
     Eof,
+    /// One error of the given kind when the read position reaches the offset; the source then goes
+    /// on delivering data (a socket timeout, a would-block, a reset that the caller retries).
+    /// 0 = Other, 1 = WouldBlock, 2 = TimedOut, 3 = ConnectionReset
+    Once(u8),
 }
 
 #[derive(Clone, Debug, Serialize, Deserialize, PartialEq)]
@@ -310,7 +320,7 @@ impl<'a> SimSource<'a> {
                     let a = f.at as usize;
                     err_at = Some(err_at.map_or(a, |e: usize| e.min(a)));
                 }
-                ReadFaultKind::Interrupted => {}
+                ReadFaultKind::Interrupted | ReadFaultKind::Once(_) => {}
             }
         }
         let n = plan.faults.len();
@@ -366,6 +376,26 @@ impl Read for SimSource<'_> {
                     return Err(io::Error::new(ErrorKind::Interrupted, "sim: EINTR"));
                 } else {
                     stop = stop.min(a);
+                }
+            }
+        }
+        for (i, f) in self.plan.faults.iter().enumerate() {
+            if let ReadFaultKind::Once(k) = f.kind {
+                if !self.eintr_done[i] {
+                    let a = f.at as usize;
+                    if self.pos >= a {
+                        self.eintr_done[i] = true;
+                        self.errs += 1;
+                        let kind = match k {
+                            1 => ErrorKind::WouldBlock,
+                            2 => ErrorKind::TimedOut,
+                            3 => ErrorKind::ConnectionReset,
+                            _ => ErrorKind::Other,
+                        };
+                        return Err(io::Error::new(kind, "sim: one-off read error"));
+                    } else {
+                        stop = stop.min(a);
+                    }
                 }
             }
         }
